@@ -387,34 +387,31 @@ type genRun struct {
 	tlcW, pyW int // TLC workers, replay workers
 }
 
+// The TLC runs of the generator half, one after the other (the machine is shared: never two TLC calls of one
+// check at a time); the replay of a run's records goes on while TLC is still producing them.
 func runGen(env *common.Env, rep *common.Report) *genStats {
 	gs := &genStats{byPreOut: newCounter(), byBody: newCounter()}
-	runs := []genRun{
-		{name: "yield-from transparency (lock-step, small steps)", cfg: "gen_lock.cfg", tlcW: 1},
-		{name: "small-step reading, one instance", cfg: "gen_micro.cfg", tlcW: 1},
+	tw, pw := share(env, 1, 2), share(env, 2, 2)
+	design := genRun{name: "design check on the small-step specification: yield-from transparency in lock-step + every template alone", cfg: "gen_design.cfg", tlcW: tw}
+	if env.Thorough() {
+		design.cfg = "gen_design_t.cfg"
 	}
-	big, small := share(env, 2, 2), share(env, 4, 2)
+	runs := []genRun{design}
 	if env.Thorough() {
 		runs = append(runs,
-			genRun{name: "exhaustive 2 instances x 5 calls", cfg: "gen_thorough.cfg", emits: true, tlcW: big, pyW: small},
-			genRun{name: "sampled 3 instances x 6 calls", cfg: "gen_sim3.cfg", simTotal: 30000, depth: 20, emits: true, tlcW: small, pyW: share(env, 8, 1)})
+			genRun{name: "exhaustive 2 instances x 4 calls x 14 templates", cfg: "gen_thorough.cfg", emits: true, tlcW: tw, pyW: pw},
+			genRun{name: "sampled 3 instances x 6 calls", cfg: "gen_sim3.cfg", simTotal: 20000, depth: 20, emits: true, tlcW: tw, pyW: pw},
+			genRun{name: "sampled 2 instances x 6 calls", cfg: "gen_sim2.cfg", simTotal: 10000, depth: 20, emits: true, tlcW: tw, pyW: pw})
 	} else {
 		runs = append(runs,
-			genRun{name: "exhaustive 2 instances x 4 calls", cfg: "gen_quick.cfg", emits: true, tlcW: big, pyW: small},
-			genRun{name: "sampled 3 instances x 6 calls", cfg: "gen_sim3.cfg", simTotal: 3000, depth: 20, emits: true, tlcW: small, pyW: share(env, 8, 1)})
+			genRun{name: "exhaustive 2 instances x 4 calls x 12 templates", cfg: "gen_quick.cfg", emits: true, tlcW: tw, pyW: pw},
+			genRun{name: "sampled 3 instances x 6 calls", cfg: "gen_sim3.cfg", simTotal: 3000, depth: 20, emits: true, tlcW: tw, pyW: pw})
 	}
 	seen := map[string]bool{}
 	var mu sync.Mutex // guards seen, gs counters, gs.runs
-	var all sync.WaitGroup
 	for _, gr := range runs {
-		gr := gr
-		all.Add(1)
-		go func() {
-			defer all.Done()
-			gs.one(env, rep, gr, seen, &mu)
-		}()
+		gs.one(env, rep, gr, seen, &mu)
 	}
-	all.Wait()
 	return gs
 }
 
@@ -461,7 +458,7 @@ func (gs *genStats) one(env *common.Env, rep *common.Report, gr genRun, seen map
 		}
 	}
 	res := env.MustTLC(common.TLCRun{Dir: "C05", Module: "MCGen", Config: gr.cfg, Simulate: simulate, Depth: gr.depth, Seed: env.Seed,
-		Workers: gr.tlcW, Timeout: 14 * time.Minute, OnLine: func(rec []byte) {
+		Workers: gr.tlcW, Timeout: tlcTimeout(env), OnLine: func(rec []byte) {
 			if !gr.emits {
 				return
 			}
